@@ -3,6 +3,7 @@
 //! Exit 0: property held on everything explored; 1: VIOLATION line(s) printed; 2: machinery failure.
 
 mod common;
+mod explore;
 mod inputs;
 mod p01_roundtrip;
 mod p02_refcodec;
@@ -10,6 +11,8 @@ mod p03_nocrash;
 mod p04_consume;
 mod p05_prefix;
 mod p06_resync;
+mod p07_reader;
+mod p08_stream;
 mod p09_filter;
 mod p13_construct;
 mod p15_lengths;
@@ -82,6 +85,8 @@ fn main() {
             "C04" => p04_consume::run(&ctx),
             "C05" => p05_prefix::run(&ctx),
             "C06" => p06_resync::run(&ctx),
+            "C07" => p07_reader::run(&ctx),
+            "C08" => p08_stream::run(&ctx),
             "C09" => p09_filter::run(&ctx),
             "C15" => p15_lengths::run(&ctx),
             "C13" => p13_construct::run(&ctx),
